@@ -37,26 +37,30 @@ example : RW.fresh.run [.accept 7, .probe [7], .probe [], .startDone 7, .probe [
 /-- a completion that comes in time still moves the runner -/
 example : (RW.fresh.run [.accept 7, .startDone 7]).map (·.running) = some [(7, 0)] := by decide
 
-/-! ### finding F15b: `reportSSHConnected` on a dropped worker -/
+/-! ### finding F15b (fixed in /repo 847719d): `reportSSHConnected` on a dropped worker -/
 
-/-- what C15 needs: a verified SSH connection never crashes the dispatcher, whatever the pool holds -/
-def C15_ssh_report_Full : Prop := ∀ (workers : List Nat) (id : Nat), (reportSSHConnected workers id).isSome = true
+/-- **A verified SSH connection never crashes the dispatcher**, whatever the pool holds: for an
+instance whose worker has been dropped the call returns without touching anything. -/
+theorem C15_ssh_report (workers : List Nat) (id : Nat) :
+    (reportSSHConnected workers id).isSome = true ∧
+    (id ∉ workers → reportSSHConnected workers id = some false) := by
+  unfold reportSSHConnected
+  constructor
+  · split <;> rfl
+  · intro h
+    have : workers.contains id = false := by simpa using h
+    rw [this]; rfl
 
-/-- **It does not hold** of the current code: the worker of the instance has been dropped meanwhile. -/
-theorem C15_ssh_report_full_fails : ¬ C15_ssh_report_Full := by
+/-- **Before the fix** it did: the worker of the instance had been dropped meanwhile. (Witness kept in
+corpus/C15/f15b.txt.) -/
+theorem C15_ssh_report_before_fix_fails :
+    ¬ ∀ (workers : List Nat) (id : Nat), (reportSSHConnectedOld workers id).isSome = true := by
   intro h
   have := h [] 1
   revert this
   decide
 
-/-- **Partial**: as long as the instance's worker is still in the pool when its handshake completes
-(the cloud keeps a destroyed instance listed at least as long as an SSH handshake can take). -/
-theorem C15_ssh_report_partial (workers : List Nat) (id : Nat) (h : id ∈ workers) :
-    (reportSSHConnected workers id).isSome = true := by
-  unfold reportSSHConnected
-  have : workers.contains id = true := by simpa using h
-  rw [this]; rfl
-
-example : (reportSSHConnected [1, 2] 2).isSome = true := by decide
+example : reportSSHConnected [1, 2] 2 = some true := by decide
+example : reportSSHConnected [] 1 = some false := by decide
 
 end ArvVerif.C15
